@@ -434,10 +434,11 @@ def design_ast(design):
             elif d[0] == "port":
                 p = m["ports"][d[1]]
                 items.append({"t": "port", "dir": p["dir"], "vt": p["vtype"],
-                              "rng": [p.get("lsb", 0) + p["w"] - 1, p.get("lsb", 0)] if p["ranged"] else None, "n": p["name"]})
+                              "rng": [p.get("lsb", 0) + p["w"] - 1, p.get("lsb", 0)] if p["ranged"] else None, "n": p["name"],
+                              "attrs": [] if m["kind"] == "prim" else (p.get("attrs") or [])})
             else:
                 p = m["ports"][d[1]]
-                items.append({"t": "port", "dir": p["dir"], "vt": None, "rng": None, "n": p["alias"][d[2]]})
+                items.append({"t": "port", "dir": p["dir"], "vt": None, "rng": None, "n": p["alias"][d[2]], "attrs": []})
         for it in m["body"]:
             if it["t"] == "assign":
                 items.append({"t": "assign", "l": it["l"], "r": it["r"]})
@@ -471,7 +472,8 @@ def canon_impl_view(v):
         defs.append({
             "name": name, "lib": D["lib"], "primitive": bool(D["data"].get("VERILOG.primitive")),
             "params": D["data"].get("VERILOG.Parameters") or {}, "attrs": D["data"].get("VERILOG.InlineConstraints") or {},
-            "ports": [[p["name"], p["dir"], p["lower"], p["width"], p["downto"], p["pins"]] for p in D["ports"]],
+            "ports": [[p["name"], p["dir"], p["lower"], p["width"], p["downto"], p["pins"],
+                       p["data"].get("VERILOG.InlineConstraints") or {}] for p in D["ports"]],
             "cables": [[c["name"], c["lower"], c["width"], c["downto"], c["data"].get("VERILOG.CableType"),
                         c["data"].get("VERILOG.InlineConstraints")] for c in D["cables"]],
             "insts": _canon_insts([[i["name"], i["ref"], i["data"].get("VERILOG.Parameters") or {},
@@ -486,7 +488,8 @@ def canon_model_view(mv):
         defs.append({
             "name": D["name"], "lib": D["lib"], "primitive": D["primitive"], "params": dict(D["params"]),
             "attrs": dict(D["attrs"]) if D["attrs"] else {},
-            "ports": [[p["name"], p["dir"], p["lower"], p["width"], p["downto"], p["pins"]] for p in D["ports"]],
+            "ports": [[p["name"], p["dir"], p["lower"], p["width"], p["downto"], p["pins"],
+                       dict(p["attrs"]) if p.get("attrs") else {}] for p in D["ports"]],
             "cables": [[c["name"], c["lower"], c["width"], c["downto"], c["ctype"],
                         None if c["attrs"] is None else dict(c["attrs"])] for c in D["cables"]],
             "insts": _canon_insts([[i["name"], i["ref"], dict(i["params"]), None if i["attrs"] is None else dict(i["attrs"]),
